@@ -282,3 +282,29 @@ def r5(rr, repo):
             rows.add('end')
             rr.ob('nothing newer: the reader is placed at the end and the stale handle dropped', val == 'len(self.logfiles)' and (bool(closes) == had_file), mod, st[-1].node, witness=f'{val[:60]} closes={len(closes)} had_file={had_file}', key='to-end')
     rr.floor('rows of the refresh decision table (same path / first newer / end)', len(rows), 3, mod, fn)
+    # entry table: WHAT is looked for. A reader inside the list looks for the file it is on; a reader past the end (or with
+    # no files) has no current file, so no listed path may match - it can only move on to a strictly newer file.
+    cmp = [n for n in ast.walk(fn) if isinstance(n, ast.Compare) and len(n.ops) == 1 and isinstance(n.ops[0], ast.Eq) and
+           any(isinstance(x, ast.Attribute) and x.attr == 'path' for x in (n.left, n.comparators[0])) and
+           any(isinstance(x, ast.Name) for x in (n.left, n.comparators[0]))]
+    if len(cmp) != 1:
+        raise Unresolved(f'{mod.rel}: refresh_logfiles: cannot identify the path identity test ({len(cmp)} candidates)')
+    ident = [x for x in (cmp[0].left, cmp[0].comparators[0]) if isinstance(x, ast.Name)][0].id
+    inside = past = 0
+    for p in paths:
+        entry = [v for kk, v in p.pc if kk in ('ord(len(self.logfiles), self.read_idx)', 'ord(self.read_idx, len(self.logfiles))')]
+        first = [kk for kk, v in p.pc if kk in ('ord(len(self.logfiles), self.read_idx)', 'ord(self.read_idx, len(self.logfiles))')]
+        b = [e for e in p.events if e.kind == 'bind' and e.term == ident]
+        if not entry or not b:
+            rr.unresolved(f'refresh_logfiles: entry test or the binding of {ident} not found on a path', mod, fn, witness=p.pc_text()[:160], key='entry-shape')
+            continue
+        within = (entry[0] == '>') if first[0].startswith('ord(len(') else (entry[0] == '<')
+        val = b[0].args[0]
+        if within:
+            inside += 1
+            rr.ob('reader inside the list: the identity looked for is the path of the entry at the reader index', 'self.read_idx' in val and val.startswith('self.logfiles['), mod, b[0].node, witness=val, key='ident-current')
+        else:
+            past += 1
+            rr.ob('reader past the end / empty list: nothing is open, so the identity looked for matches no listed path (None / 0) - an already delivered file is never re-opened from its start',
+                  val in ('None', '0', 'False', "''"), mod, b[0].node, witness=val, key='ident-none')
+    rr.floor('refresh paths entered inside the list / past the end', min(inside, past), 1, mod, fn)
